@@ -333,7 +333,20 @@ def builtin_letchain(seg, log, where):
         close = rustlex.match_brace(masked, cond_b)
         after = masked[close + 1:close + 40].lstrip()
         if after.startswith("else"):
-            raise LostAnchor("let-chain with an else branch in %s is outside the dialect" % where)
+            # with an else branch the chain cannot be nested; the one form that is supported is
+            #   if let Some(x) = <path> && C { A } else ..   (x bound by copy, <path> a plain place expression):
+            #   if (match <path> { Some(x) => C, None => false }) { let x = <path>.unwrap(); A } else ..
+            m2 = re.match(r"\s*let Some\((\w+)\) = ([\w.]+)\s*$", parts[0]) if len(parts) == 2 else None
+            if not m2:
+                raise LostAnchor("let-chain with an else branch in %s is outside the dialect" % where)
+            x, e = m2.group(1), m2.group(2)
+            head = "if (match %s { Some(%s) => %s, None => false })" % (e, x, parts[1].strip())
+            body = seg[cond_b:close + 1]
+            body = body[:1] + " let %s = %s.unwrap();" % (x, e) + body[1:]
+            seg = seg[:m.start()] + head + " " + body + seg[close + 1:]
+            k += 1
+            pos = m.start() + 2
+            continue
         head = " { ".join("if " + x.strip() for x in parts)
         body = seg[cond_b:close + 1]
         seg = seg[:m.start()] + head + " " + body + " }" * (len(parts) - 1) + seg[close + 1:]
